@@ -405,6 +405,24 @@ def field_shape(spec, leaf, field, args_feature=()):
     return "+".join(sorted(feats)) if feats else "plain"
 
 
+def hierarchy_shape(spec, leaf, args_feature=()):
+    """features of the whole hierarchy under the leaf (for problems that concern the model as a whole)"""
+    feats = set(args_feature)
+    for f in members(spec, leaf):
+        feats |= set(field_shape(spec, leaf, f).split("+"))
+    todo, seen = [leaf], set()
+    while todo:
+        name = todo.pop()
+        if name in seen:
+            continue
+        seen.add(name)
+        for b in get_class(spec, name)["bases"]:
+            feats |= edge_features(spec, name, b)
+            todo.append(b["cls"])
+    feats.discard("plain")
+    return "+".join(sorted(feats)) if feats else "plain"
+
+
 def args_features(spec, leaf, args):
     params = class_params(spec, leaf)
     kinds = {TYPEVARS[p]["kind"] for p in params}
